@@ -243,6 +243,7 @@ Proof.
   assert (Kc : forall a, nstep0 l a (if eff_cancelled a (g_scope (groups a g)) then a
                                      else scope_cancel a (g_scope (groups a g)) false)).
   { intros a. destruct (eff_cancelled a _); [apply ns0_refl|apply ns_scope_cancel]. }
+  assert (Kc2 : forall a, nstep0 l a (scope_cancel a (g_scope (groups a g)) false)) by (intros a; apply ns_scope_cancel).
   assert (Kf : forall f v, nstep0 l s4 (fut_complete s4 f v)) by (intros f v; apply ns_fut_complete).
   eapply ns0_trans; [exact K4|].
   destruct (k_done k) as [[v|e|e]|].
@@ -251,17 +252,17 @@ Proof.
   - destruct (k_startfut k) as [f|].
     + destruct (f_st (futs s4 f)).
       * apply Kf.
-      * destruct (is_cancel e); [apply Kc|]. eapply ns0_trans; [apply Kx|apply Kc].
-      * destruct (is_cancel e); [apply Kc|]. eapply ns0_trans; [apply Kx|apply Kc].
-      * destruct (is_cancel e); [apply ns0_refl|]. eapply ns0_trans; [apply Kx|apply Kc].
-    + destruct (is_cancel e); [apply Kc|]. eapply ns0_trans; [apply Kx|apply Kc].
+      * destruct (is_cancel e); [apply Kc|]. eapply ns0_trans; [apply Kx|apply Kc2].
+      * destruct (is_cancel e); [apply Kc|]. eapply ns0_trans; [apply Kx|apply Kc2].
+      * destruct (is_cancel e); [apply ns0_refl|]. eapply ns0_trans; [apply Kx|apply Kc2].
+    + destruct (is_cancel e); [apply Kc|]. eapply ns0_trans; [apply Kx|apply Kc2].
   - destruct (k_startfut k) as [f|].
     + destruct (f_st (futs s4 f)).
       * apply Kf.
-      * destruct (is_cancel e); [apply Kc|]. eapply ns0_trans; [apply Kx|apply Kc].
-      * destruct (is_cancel e); [apply Kc|]. eapply ns0_trans; [apply Kx|apply Kc].
-      * destruct (is_cancel e); [apply ns0_refl|]. eapply ns0_trans; [apply Kx|apply Kc].
-    + destruct (is_cancel e); [apply Kc|]. eapply ns0_trans; [apply Kx|apply Kc].
+      * destruct (is_cancel e); [apply Kc|]. eapply ns0_trans; [apply Kx|apply Kc2].
+      * destruct (is_cancel e); [apply Kc|]. eapply ns0_trans; [apply Kx|apply Kc2].
+      * destruct (is_cancel e); [apply ns0_refl|]. eapply ns0_trans; [apply Kx|apply Kc2].
+    + destruct (is_cancel e); [apply Kc|]. eapply ns0_trans; [apply Kx|apply Kc2].
   - destruct (k_startfut k) as [f|]; [|apply ns0_refl].
     destruct (f_st (futs s4 f)); try apply ns0_refl. apply Kf.
 Qed.
